@@ -820,7 +820,8 @@ pub fn gen_ops(rng: &mut Rng, m: &SchemaModel, o: &OpsOpts) -> Vec<OpFileModel> 
         .collect();
     // 1. paths
     let mut paths: Vec<String> = Vec::new();
-    let stems = ["main", "list", "item", "frag", "user", "detail", "shared", "query", "view", "card"];
+    // (file names with more than one dot: `user.queries3.graphql`)
+    let stems = ["main", "list", "item", "frag", "user", "detail", "shared", "query", "view", "card", "user.queries", "item.v2.frag"];
     while paths.len() < n_files {
         let d = rng.pick(&o.dirs).clone();
         let stem = rng.pick(&stems);
